@@ -92,6 +92,16 @@ def findFrom (pat : Bytes) : Bytes → Nat → Int
 /-- `b.find(pat)` -/
 def findI (b pat : Bytes) : Int := findFrom pat b 0
 
+theorem findFrom_ge (pat : Bytes) (b : Bytes) (i : Nat) : -1 ≤ findFrom pat b i := by
+  induction b generalizing i with
+  | nil => unfold findFrom; split <;> omega
+  | cons x xs ih => unfold findFrom; split
+                    · omega
+                    · exact ih (i + 1)
+
+/-- `bytes.find` returns -1 or an index: the translator writes `find(...) < 0`, `<= -1`, `== -1` as one test -/
+theorem findI_ge (b pat : Bytes) : -1 ≤ findI b pat := findFrom_ge pat b 0
+
 theorem band_ofNat (n m : Nat) : band (n : Int) m = ((n % 2 ^ bitLen m &&& m : Nat) : Int) := by
   unfold band
   have : ((n : Int) % ((2 ^ bitLen m : Nat) : Int)) = ((n % 2 ^ bitLen m : Nat) : Int) := by
